@@ -169,6 +169,28 @@ def list_window_cases(ctx):
     return cases
 
 
+def float_precision_cases(ctx):
+    """directed: floats with more digits than the declared precision (rounding ties, values within half a unit of a bound)
+    substituted into float schemas with precision, bare and nested"""
+    from d42 import schema
+    cases = []
+    vals = [1.115, 2.675, 3.142, 3.141, 3.149, 0.125, 1.005, -0.335, 1e-9, 123456.789, 0.1 + 0.2, 2.5]
+    for v in vals:
+        for mk in (lambda: schema.float.precision(2), lambda: schema.float.precision(1), lambda: schema.float.precision(0),
+                   lambda v=v: schema.float.min(v).precision(2), lambda v=v: schema.float.max(v).precision(2),
+                   lambda v=v: schema.float.min(v).max(v).precision(1), lambda: schema.float.min(0.0).max(1e6).precision(3),
+                   lambda: schema.dict({"x": schema.float.precision(2), "y": schema.int}), lambda: schema.list(schema.float.precision(1)),
+                   lambda: schema.any(schema.float.precision(2), schema.none), lambda: schema.list([..., schema.float.precision(2), ...])):
+            try:
+                s = mk()
+            except Exception:  # noqa: BLE001
+                continue
+            from d42.declaration.types import DictSchema, ListSchema
+            vv = {"x": v} if isinstance(s, DictSchema) else ([v] if isinstance(s, ListSchema) else v)
+            cases.append(SubCase(s, vv, vv, "float-precision"))
+    return cases
+
+
 def list_form_cases(ctx):
     """directed: every list form with 1..3 body elements against short value sequences enumerated exhaustively over a
     small member universe that includes members `from_native` cannot convert and relaxed dicts with extra keys"""
